@@ -597,7 +597,7 @@ Proof.
   - (* record *)
     cbn [elab] in H. destruct v; try discriminate.
     destruct ((strict o || strict_allow_default o) && has_extras kv fs); [discriminate|]. inv_w H. injection H as <-.
-    apply elab_fields_inv in E. cbn [typedn]. cbn [wf_schema] in Hs. apply forallb_Forall in Hs.
+    apply elab_fields_inv in E. cbn [typedn]. cbn [wf_schema] in Hs. apply andb_prop in Hs. destruct Hs as [_ Hs]. apply forallb_Forall in Hs.
     cbn [floats_ok] in Ha. apply forallb_Forall in Ha.
     assert (Hg : Forall2 (fun fd a => typedn f e (ftype fd) a) fs x); [|exact Hg].
     clear - E Hs Ha IH He Hv. induction E as [|fd y fs r (v' & Harg & Hel) _ IHl]; [constructor|].
@@ -1480,3 +1480,104 @@ Proof.
     cbn [validate] in H. cbn [nullok plain_type] in *. destruct t; try discriminate Hp; try reflexivity;
       (destruct f as [|f']; [discriminate|]; cbn [validate] in H; discriminate).
 Qed.
+
+(** *** C01: the value read back is the documented normalisation of the datum *)
+Lemma py_of_resolve ro e s1 s2 a : resolve e s1 = resolve e s2 -> py_of ro e s1 a = py_of ro e s2 a.
+Proof. intros H. destruct a; cbn [py_of]; rewrite H; reflexivity. Qed.
+
+Lemma py_of_annot ro e lt s a : py_of ro e (SAnnot lt s) a = py_of ro e s a.
+Proof. apply py_of_resolve. reflexivity. Qed.
+
+Lemma py_of_ref ro e n s' a out : lookup e n = Some s' -> py_of ro e (SRef n) a = Some out -> py_of ro e s' a = Some out.
+Proof.
+  intros Hl H. assert (Hr : resolve e (SRef n) = strip s') by (unfold resolve; cbn [strip]; rewrite Hl; reflexivity).
+  destruct (strip s') eqn:Es;
+    try (rewrite <- H; symmetry; apply py_of_resolve; rewrite Hr; unfold resolve; rewrite Es; reflexivity).
+  exfalso. destruct a; cbn [py_of] in H; rewrite Hr in H; discriminate.
+Qed.
+
+Lemma dict_set_fresh acc k v : dict_get acc k = None -> dict_set acc k v = acc ++ [(PStr k, v)].
+Proof.
+  induction acc as [|[k0 x0] acc IH]; cbn [dict_get dict_set app]; intros H; [reflexivity|].
+  destruct k0; try (rewrite IH by exact H; reflexivity).
+  destruct (bytes_eqb s k); [discriminate|]. rewrite IH by exact H. reflexivity.
+Qed.
+
+Lemma dict_get_snoc acc k v k' : dict_get acc k' = None -> bytes_eqb k k' = false -> dict_get (acc ++ [(PStr k, v)]) k' = None.
+Proof.
+  induction acc as [|[k0 x0] acc IH]; cbn [dict_get app]; intros H Hk; [rewrite Hk; reflexivity|].
+  destruct k0; try (apply IH; assumption). destruct (bytes_eqb s k'); [discriminate|]. apply IH; assumption.
+Qed.
+
+Lemma beqb_neq a b : a <> b -> bytes_eqb a b = false.
+Proof. intros H. destruct (bytes_eqb a b) eqn:E; [|reflexivity]. apply beqb_eq in E. contradiction. Qed.
+
+Section PyLoops.
+  Variables (ro : ropts) (e : env).
+
+  Lemma py_items_spec (P : aval -> Prop) (Q : pyval -> pyval -> Prop) it (src : list pyval) :
+    forall l, Forall2 (fun x a => P a /\ forall out, py_of ro e it a = Some out -> Q x out) src l ->
+    forall outs,
+    (fix go (l : list aval) : option (list pyval) :=
+       match l with
+       | [] => Some []
+       | x :: l => match py_of ro e it x, go l with Some v, Some r => Some (v :: r) | _, _ => None end
+       end) l = Some outs -> Forall2 Q src outs.
+  Proof.
+    induction 1 as [|x a src l [_ Hq] _ IH]; intros outs H.
+    - injection H as <-. constructor.
+    - destruct (py_of ro e it a) as [v|] eqn:Ea; [|discriminate].
+      match type of H with match ?g with _ => _ end = _ => destruct g as [r|] eqn:Eg; [|discriminate] end.
+      injection H as <-. constructor; [apply Hq; reflexivity|apply IH; reflexivity].
+  Qed.
+
+  Lemma py_map_spec (Q : pyval -> pyval -> Prop) vs :
+    forall (src : list (pyval * pyval)) (l : list (bytes * aval)),
+    Forall2 (fun p q => fst p = PStr (fst q) /\ forall out, py_of ro e vs (snd q) = Some out -> Q (snd p) out) src l ->
+    NoDup (map fst l) -> forall acc res, (forall k, In k (map fst l) -> dict_get acc k = None) ->
+    (fix go (l : list (bytes * aval)) (acc : list (pyval * pyval)) : option (list (pyval * pyval)) :=
+       match l with
+       | [] => Some acc
+       | (k, x) :: l => match py_of ro e vs x with Some v => go l (dict_set acc k v) | None => None end
+       end) l acc = Some res ->
+    exists outs, res = acc ++ outs /\
+      Forall2 (fun p q => exists k, fst p = PStr k /\ fst q = PStr k /\ Q (snd p) (snd q)) src outs.
+  Proof.
+    induction 1 as [|p [k a] src l [Hk Hq] _ IH]; intros Hnd acc res Hfresh H.
+    - injection H as <-. exists []. rewrite app_nil_r. split; [reflexivity|constructor].
+    - cbn [fst snd map] in *. destruct (py_of ro e vs a) as [v|] eqn:Ea; [|discriminate].
+      inversion Hnd as [|? ? Hnotin Hnd']; subst.
+      rewrite dict_set_fresh in H by (apply Hfresh; left; reflexivity).
+      destruct (IH Hnd' _ _ (fun k' Hk' => dict_get_snoc acc k v k' (Hfresh k' (or_intror Hk'))
+                                             (beqb_neq _ _ (fun E => Hnotin (eq_ind_r (fun z => In z (map fst l)) Hk' E)))) H)
+        as (outs & -> & Ho).
+      exists ((PStr k, v) :: outs). split; [rewrite <- app_assoc; reflexivity|].
+      constructor; [exists k; repeat split; [exact Hk|apply Hq; reflexivity]|exact Ho].
+  Qed.
+
+  Lemma py_rec_spec (Q : field -> pyval -> Prop) :
+    forall (fs : list field) (l : list aval),
+    Forall2 (fun fd a => forall out, py_of ro e (ftype fd) a = Some out -> Q fd out) fs l ->
+    NoDup (map (fun fd => fname fd) fs) -> forall acc res, (forall k, In k (map (fun fd => fname fd) fs) -> dict_get acc k = None) ->
+    (fix go (fs : list field) (l : list aval) (acc : list (pyval * pyval)) {struct l} : option (list (pyval * pyval)) :=
+       match fs, l with
+       | [], [] => Some acc
+       | f :: fs, x :: l => match py_of ro e (ftype f) x with
+                            | Some v => go fs l (dict_set acc (fname f) v)
+                            | None => None end
+       | _, _ => None
+       end) fs l acc = Some res ->
+    exists outs, res = acc ++ outs /\ Forall2 (fun fd q => fst q = PStr (fname fd) /\ Q fd (snd q)) fs outs.
+  Proof.
+    induction 1 as [|fd a fs l Hq _ IH]; intros Hnd acc res Hfresh H.
+    - injection H as <-. exists []. rewrite app_nil_r. split; [reflexivity|constructor].
+    - cbn [map] in *. destruct (py_of ro e (ftype fd) a) as [v|] eqn:Ea; [|discriminate].
+      inversion Hnd as [|? ? Hnotin Hnd']; subst.
+      rewrite dict_set_fresh in H by (apply Hfresh; left; reflexivity).
+      destruct (IH Hnd' _ _ (fun k' Hk' => dict_get_snoc acc (fname fd) v k' (Hfresh k' (or_intror Hk'))
+                 (beqb_neq _ _ (fun E => Hnotin (eq_ind_r (fun z => In z (map (fun fd => fname fd) fs)) Hk' E)))) H)
+        as (outs & -> & Ho).
+      exists ((PStr (fname fd), v) :: outs). split; [rewrite <- app_assoc; reflexivity|].
+      constructor; [split; [reflexivity|apply Hq; reflexivity]|exact Ho].
+  Qed.
+End PyLoops.
